@@ -336,6 +336,46 @@ def unknown_shape_cases(cases, V):
     return out, n
 
 
+def first_likes(chk):
+    import common
+    from common import pb, u, Time
+    n = 0
+    t0 = Time("2021-03-04T05:06:07", format="isot", precision=9)
+    plain = pb.Signal(np.ones((4, 2, 2)), sample_rate=1 * u.MHz, start_time=t0, meta={"a": 1})
+    plainc = pb.Signal(np.ones((4, 2, 2), complex), sample_rate=1 * u.MHz, start_time=t0, meta={"a": 1})
+    plain4 = pb.Signal(np.ones((4, 2, 4)), sample_rate=1 * u.MHz)
+    radio = pb.RadioSignal(np.ones((4, 2, 2)), sample_rate=1 * u.MHz, center_freq=1 * u.GHz, chan_bw=1 * u.MHz, freq_align="top")
+    tries = [(pb.RadioSignal, plain, dict(center_freq=1 * u.GHz, chan_bw=1 * u.MHz)),
+             (pb.IntensitySignal, plain, dict(center_freq=1 * u.GHz, chan_bw=1 * u.MHz)),
+             (pb.FullStokesSignal, plain4, dict(center_freq=1 * u.GHz, chan_bw=1 * u.MHz)),
+             (pb.BasebandSignal, plainc, dict(center_freq=1 * u.GHz)),
+             (pb.DualPolarizationSignal, plainc, dict(center_freq=1 * u.GHz, pol_type="linear")),
+             (pb.IntensitySignal, radio, {}), (pb.Signal, radio, {})]
+    for cls, ref, kw in tries:
+        try:
+            r = cls.like(ref, **kw)
+        except Exception:  # noqa  (a refusal is fine here; the point is the order of calls)
+            continue
+        n += 1
+        bad = common.contract(r)
+        if bad:
+            chk.violation("like:cross-class:contract", "%s.like(%s) violates the contract: %s" % (cls.__name__, type(ref).__name__, bad),
+                          {"kind": "first-likes", "cls": cls.__name__})
+    # and straight afterwards: copies of even-channel signals with every alignment keep it
+    for cls, dt in ((pb.RadioSignal, float), (pb.IntensitySignal, float), (pb.BasebandSignal, complex)):
+        for al in ("bottom", "top", "center"):
+            kw = dict(sample_rate=1 * u.MHz, center_freq=1 * u.GHz, freq_align=al, start_time=t0)
+            if cls is not pb.BasebandSignal:
+                kw["chan_bw"] = 1 * u.MHz
+            z = cls(np.ones((4, 2), dt), **kw)
+            for nm, y in (("like", cls.like(z)), ("slice", z[1:]), ("ufunc", z * 2), ("pickle", pickle.loads(pickle.dumps(z)))):
+                n += 1
+                if y.freq_align != al or common.hz(y.channel_freqs) != common.hz(z.channel_freqs):
+                    chk.violation("copy:freq_align:after-cross-class-like", "%s of a %s with freq_align=%r has freq_align=%r"
+                                  % (nm, cls.__name__, al, y.freq_align), {"kind": "first-likes", "cls": cls.__name__, "align": al})
+    chk.validated += n
+
+
 def load_cases(path):
     import json
     cases, catalog = [], None
@@ -356,6 +396,10 @@ def load_cases(path):
 def run(chk):
     rnd = random.Random(chk.seed)
     thorough = chk.tier == "thorough"
+    # call order: the first copies this process makes are cross-class like() calls from LESS specific references
+    # (a plain Signal / RadioSignal as the reference of a more specific class); every later copy of the catalogue
+    # must still reproduce every attribute (anything remembered per class from the first reference is exposed)
+    first_likes(chk)
     r = tlc.run("Contract", "MC_Contract_full.cfg" if thorough else "MC_Contract.cfg", timeout=1800)
     chk.mc_must_hold("MC_Contract", r)
     chk.exhaustive = r.ok
@@ -417,6 +461,20 @@ def replay(doc):
     c = doc["case"]
     if c.get("kind") == "pipeline":
         return c01.replay(doc)
+    if c.get("kind") == "first-likes":
+        class Col:
+            validated = 0
+            found = []
+
+            def violation(self, key, desc, case):
+                self.found.append((key, desc))
+        col = Col()
+        first_likes(col)
+        for key, desc in col.found:
+            print("VIOLATION property=C16 replay=(this case)  # %s: %s" % (key, desc))
+        if not col.found:
+            print("case passes")
+        return 1 if col.found else 0
     import json
     V = values()
     out = os.path.join(SCR, "C16_replay_%d.ndjson" % os.getpid())
